@@ -34,6 +34,9 @@ func (d *def) sexp() sx.Sexp {
 	as := make([]sx.Sexp, len(d.attrs))
 	for i, a := range d.attrs {
 		as[i] = sx.L(sx.A(a.name), a.ty.sexp(), sx.A(a.kind), optVal(a.dflt))
+		if a.override {
+			as[i] = sx.L(sx.A(a.name), a.ty.sexp(), sx.A(a.kind), optVal(a.dflt), sx.A("o"))
+		}
 	}
 	eq := sx.A("-")
 	if d.eqKind != "-" {
@@ -219,6 +222,47 @@ func genChain(r *rand.Rand) []def {
 				repeated = true
 			}
 			d.attrs = append(d.attrs, genAttr(r, name))
+		}
+		if d.parent >= 0 && r.Intn(4) == 0 {
+			// override an inherited attribute: same name, `override => true`, mostly the same or a narrower type,
+			// often only to give it a default
+			inh := mkSpec(defs).all[d.parent]
+			if len(inh) > 0 {
+				pa := inh[r.Intn(len(inh))]
+				dup := false
+				for _, x := range d.attrs {
+					dup = dup || x.name == pa.name
+				}
+				if !dup {
+					a := attr{name: pa.name, ty: pa.ty, kind: pa.kind, dflt: pa.dflt, override: r.Intn(12) != 0}
+					switch r.Intn(6) {
+					case 0:
+						if pa.ty.k == "opt" {
+							a.ty = pa.ty.elt
+						} else if pa.ty.k == "any" {
+							a.ty = tyAll[r.Intn(len(tyAll))]
+						}
+						if a.dflt != nil && !a.ty.inst(*a.dflt) {
+							a.dflt = nil
+						}
+					case 1:
+						a.ty = tyAll[r.Intn(len(tyAll))]
+						a.dflt = nil
+					case 2:
+						a.kind = pickKind(r)
+					}
+					if a.kind == "c" || (a.kind != "d" && a.kind != "g" && r.Intn(2) == 0) {
+						v := witness(r, a.ty)
+						a.dflt = &v
+					} else if a.kind == "d" || a.kind == "g" {
+						a.dflt = nil
+					}
+					k := r.Intn(len(d.attrs) + 1)
+					d.attrs = append(d.attrs[:k], append([]attr{a}, d.attrs[k:]...)...)
+				}
+			}
+		} else if len(d.attrs) > 0 && r.Intn(60) == 0 {
+			d.attrs[r.Intn(len(d.attrs))].override = true // nothing to override
 		}
 		defs = append(defs, d)
 		// equality / serialization need the specification's view of what exists so far
